@@ -96,8 +96,6 @@ def check_deployment(R, label, dc, fn_node, modglobals):
     env['deploy_config'] = dc
     vt_ = M.ValidatorTranslator(fn_node, env)
     acc_rx = vt_.accepted()
-    charsets = []
-    acc = sx.to_z3(acc_rx, charsets)
     hosts = None
     for k, v in vt_.concrete.items():
         if isinstance(v, list) and v and all(isinstance(x, str) for x in v) and k != 'valid_next_services':
@@ -112,34 +110,40 @@ def check_deployment(R, label, dc, fn_node, modglobals):
             raise HarnessError(f'{label}: own host {h!r} is not a plain lower-case DNS name for the browser model: {k}')
     R.sample({'deployment': label, 'own_hosts': own, 'validator_domain_list': hosts, 'base': f'{bscheme}://{bhost}'})
 
-    lands = {h: sx.to_z3(M.browser_lands_lang(h, bscheme, bhost), charsets) for h in own}
-    lands_any = strlang.re_union(list(lands.values()))
-    nonspecial = sx.to_z3(M.nonspecial_scheme_lang(), charsets)
-    ns_host_any = strlang.re_union([sx.to_z3(M.nonspecial_host_lang(h), charsets) for h in own])
+    from vt.strlang_ext import ALL as A_, cat as c_, cset as s_, lit as l_, alt as a_, opt as o_, star as st_
     evil = 'evil.example'
-    lands_evil = sx.to_z3(M.browser_lands_lang(evil, bscheme, bhost), charsets)
+    rx = {'acc': acc_rx, 'nonspecial': M.nonspecial_scheme_lang(), 'lands_evil': M.browser_lands_lang(evil, bscheme, bhost),
+          'ascii_print': st_(s_([(0x21, 0x7e)])), 'lower_start': c_(s_([(97, 122)]), A_()),
+          'canon': a_(*[c_(l_(f'https://{h}'), o_(c_(s_('/?#'), A_()))) for h in own])}
+    for h in own:
+        rx['lands:' + h] = M.browser_lands_lang(h, bscheme, bhost)
+        rx['nshost:' + h] = M.nonspecial_host_lang(h)
+    hard_rx = [A_(), c_(A_(), l_('\t'), A_()), c_(A_(), l_('\\'), A_()), c_(A_(), l_('@'), A_()), c_(A_(), l_(':'), A_()),
+               c_(s_([(0, 0x20)]), A_()), c_(A_(), l_('//'), A_()), c_(A_(), l_(own[0]), A_())]
+    charsets = []
+    for x in list(rx.values()) + hard_rx:
+        sx.to_z3(x, charsets)
+    red = sx.Reducer(charsets)
+    Z = {k: sx.to_z3(x, None, red) for k, x in rx.items()}
+    REPS = red.repstar()
 
-    ok, det = strlang.high_plane_reduction(charsets)
-    R.ob(f'{label}: code points above U+2FFFF share a class signature with a lower one',
-         'discharged' if ok else 'not_discharged', 0.0, det, nontrivial=True)
-    if not ok:
-        raise HarnessError(f'alphabet reduction failed: {det}')
+    def RP(z):
+        return z3.Intersect(z, REPS)
 
-    s = z3.String('s')
-    has = lambda ch: (lambda sv: z3.Contains(sv, z3.StringVal(ch)))  # noqa: E731
+    acc = Z['acc']
+    lands = {h: Z['lands:' + h] for h in own}
+    lands_any = strlang.re_union(list(lands.values()))
+    nonspecial = Z['nonspecial']
+    ns_host_any = strlang.re_union([Z['nshost:' + h] for h in own])
+    lands_evil = Z['lands_evil']
+    R.ob(f'{label}: alphabet compressed to one representative per character-class signature (all of Unicode incl. planes above U+2FFFF)',
+         'discharged', 0.0, {'charsets': len(charsets), 'classes': len(red.reps)}, nontrivial=True)
 
     # ---- translator validation 1: accept language vs the real validator (hence the real urlsplit) -----
     t = time.time()
-    hard = [strlang.re_full(),
-            z3.Concat(strlang.re_full(), strlang.re_lit('\t'), strlang.re_full()),
-            z3.Concat(strlang.re_full(), strlang.re_lit('\\'), strlang.re_full()),
-            z3.Concat(strlang.re_full(), strlang.re_lit('@'), strlang.re_full()),
-            z3.Concat(strlang.re_full(), strlang.re_lit(':'), strlang.re_full()),
-            z3.Concat(strlang.z3_charset([(0, 0x20)]), strlang.re_full()),
-            z3.Concat(strlang.re_full(), strlang.re_lit('//'), strlang.re_full()),
-            z3.Concat(strlang.re_full(), strlang.re_lit(own[0]), strlang.re_full())]
-    pts = gen_points([z3.Intersect(acc, hz) for hz in hard], n_pts)
-    npts = gen_points([z3.Intersect(z3.Complement(acc), hz) for hz in hard], n_pts)
+    hard = [sx.to_z3(x, None, red) for x in hard_rx]
+    pts = gen_points([RP(z3.Intersect(acc, hz)) for hz in hard], n_pts)
+    npts = gen_points([RP(z3.Intersect(z3.Complement(acc), hz)) for hz in hard], n_pts)
     h0 = own[0]
     handmade = ['', ' ', '/', '//', f'//{h0}', f'https://{h0}', f'https://{h0}/', f' https://{h0}/x', f'https://{h0} ',
                 f'ht\ttps:/\n/{h0[:3]}\r{h0[3:]}/p', f'https://{h0}:443/', f'https://u@{h0}/', f'https://{h0}@evil.example/',
@@ -154,7 +158,7 @@ def check_deployment(R, label, dc, fn_node, modglobals):
         if not sx.zstr_ok(p):
             continue
         want = real_accepts(dc, p)
-        got = sx.in_lang(acc, p)
+        got = red.in_lang(acc, p)
         R.validation_points += 1
         n_in += want
         n_out += not want
@@ -172,20 +176,20 @@ def check_deployment(R, label, dc, fn_node, modglobals):
     all_lands = dict(lands)
     all_lands[evil] = lands_evil
     for h, z in all_lands.items():
-        for p in gen_points([z3.Intersect(z, hz) for hz in hard[:5]], max(4, n_pts // 2)):
+        for p in gen_points([RP(z3.Intersect(z, hz)) for hz in hard[:5]], max(4, n_pts // 2)):
             k = M.browser_target(p, bscheme, bhost)
             R.validation_points += 1
             b_in += 1
             if not (k[0] == 'host' and k[2] == h and k[1] in M.SPECIAL):
                 raise HarnessError(f'{label}: browser regex says {p!r} lands on {h} but the state machine says {k}')
     union_all = z3.Union(lands_any, lands_evil)
-    for p in gen_points([z3.Intersect(z3.Complement(union_all), hz) for hz in hard], n_pts) + handmade:
+    for p in gen_points([RP(z3.Intersect(z3.Complement(union_all), hz)) for hz in hard], n_pts) + handmade:
         if not sx.zstr_ok(p):
             continue
         k = M.browser_target(p, bscheme, bhost)
         R.validation_points += 1
         b_out += 1
-        in_any = [h for h, z in all_lands.items() if sx.in_lang(z, p)]
+        in_any = [h for h, z in all_lands.items() if red.in_lang(z, p)]
         if k[0] == 'host' and k[1] in M.SPECIAL and k[2] in all_lands:
             # the regex is an under-approximation only for ports of 5 digits and non-ASCII / %-encoded host spellings
             if k[2] not in in_any and not _underapprox_hole(p):
@@ -197,15 +201,14 @@ def check_deployment(R, label, dc, fn_node, modglobals):
 
     # ---- reachability twins ------------------------------------------------------------------------------
     for nm, z in (('accepted', acc), ('rejected', z3.Complement(acc)), ('foreign-landing', z3.Intersect(
-            lands_evil, z3.Complement(lands_any))), ('accepted-with-scheme', z3.Intersect(
-                acc, z3.Concat(strlang.z3_charset([(97, 122)]), strlang.re_full())))):
-        r, w, dt = member(z)
+            lands_evil, z3.Complement(lands_any))), ('accepted-with-scheme', z3.Intersect(acc, Z['lower_start']))):
+        r, w, dt = member(RP(z))
         if r != 'sat':
             raise HarnessError(f'{label}: {nm} language is empty — vacuous encoding')
         R.sample({'deployment': label, nm: w})
 
     # ---- the property ------------------------------------------------------------------------------------
-    ascii_print = z3.Star(strlang.z3_charset([(0x21, 0x7e)]))
+    ascii_print = Z['ascii_print']
 
     def decide(name, z, cls, describe):
         # prefer a printable-ASCII witness (the state machine decides those completely); then any string.
@@ -217,11 +220,11 @@ def check_deployment(R, label, dc, fn_node, modglobals):
         for _ in range(6):
             zz = z
             for x in seen:
-                zz = z3.Intersect(zz, z3.Complement(strlang.re_lit(x)))
-            r, w, dt = member(z3.Intersect(zz, ascii_print))
+                zz = z3.Intersect(zz, z3.Complement(z3.Re(sx.sval(x))))
+            r, w, dt = member(RP(z3.Intersect(zz, ascii_print)))
             total += dt
             if r != 'sat':
-                r2, w, dt2 = member(zz)
+                r2, w, dt2 = member(RP(zz))
                 total += dt2
                 r = r2 if r == 'unsat' or r2 == 'sat' else r
             if r == 'unsat':
@@ -265,13 +268,12 @@ def check_deployment(R, label, dc, fn_node, modglobals):
         return R.finding('rejects-own-url', f'{FN}({w!r}) rejected under {label} although it is an own https URL',
                          {'deployment': label, 'arg': w, 'own': own, 'base': [bscheme, bhost], 'expect_accept': True})
 
-    canon = strlang.re_union([z3.Concat(strlang.re_lit(f'https://{h}'), z3.Option(z3.Concat(
-        strlang.z3_charset([(47, 47), (63, 63), (35, 35)]), strlang.re_full()))) for h in own])
+    canon = Z['canon']
     decide(f'{label}: every https://<own host>[/?#…] is accepted', z3.Intersect(canon, z3.Complement(acc)),
            'rejects-own-url', rejected_canonical)
 
     # information, not a violation (DESIGN §6/C29): accepted strings with a scheme no browser navigates to on a redirect
-    r, w, dt = member(z3.Intersect(acc, nonspecial))
+    r, w, dt = member(RP(z3.Intersect(acc, nonspecial)))
     R.extra.setdefault('information', []).append(
         {'deployment': label, 'accepted_non_navigable_scheme_example': w,
          'note': 'accepted although the scheme is not http(s)/ftp/ws(s)/file; a Location redirect to it does not navigate'})
@@ -313,8 +315,8 @@ def run(R):
     R.encode(f'{DEPLOY}:{dnode.lineno} DeployConfig.external_url (evaluated concretely)', dtext)
     import inspect
     R.encode('urllib.parse.urlsplit (CPython, modelled)', inspect.getsource(urllib.parse.urlsplit))
-    R.bounds = {'string_length': 'unbounded', 'alphabet': 'all Unicode scalar values (z3 alphabet 0..0x2FFFF plus '
-                'class-signature reduction for higher planes; lone surrogates excluded)',
+    R.bounds = {'string_length': 'unbounded', 'alphabet': 'all Unicode scalar values (compressed to one representative per character-class '
+                'signature, exact for languages built from those classes; lone surrogates excluded)',
                 'deployments': '2 concrete (default namespace / hail.is; namespace pr-1234 / internal.<domain> + base path)'}
     R.assume('the browser is WHATWG-URL conformant and resolves the Location value against the auth service URL '
              '(https, own host); the browser model under-approximates "lands on h" (ASCII spellings of h, ports of '
